@@ -346,10 +346,12 @@ fn respell_block_cases(r: &mut Rng, count: usize) -> Vec<Case> {
             match (&a, &bb) {
                 (Ok(la), Ok(lb)) => {
                     c.imp = "(both-compile)".into();
+                    // `Rooc.Props.C10.compile_respell_constant`: the same linear model, bit for bit
                     if sx::lin_model(la) == sx::lin_model(lb) { c.tags.push("respell-identical-output".into()); }
                     else {
                         c.tags.push("respell-different-output".into());
-                        c.oracle = format!("py:{} {} {}", if r.chance(1, 2) { "c01" } else { "c02" }, sx::model(&m1), sx::lin_model(lb));
+                        c.sig = Some("respelling-changes-output".into());
+                        c.impl_violation = Some(format!("two spellings of the same constant compile to different linear models: {}  vs  {}", sx::lin_model(la), sx::lin_model(lb)));
                     }
                 }
                 (Err(x), Err(y)) if err(x) == err(y) => { c.imp = format!("(both-rejected {})", err(x)); c.tags.push("respell-both-rejected".into()); }
@@ -358,6 +360,95 @@ fn respell_block_cases(r: &mut Rng, count: usize) -> Vec<Case> {
                     c.sig = Some("respelling-changes-acceptance".into());
                     let e = |z: &Result<rooc::LinearModel, rooc::LinearizationError>| z.as_ref().err().map(|e| err(e)).unwrap_or("(ok)".into());
                     c.impl_violation = Some(format!("two spellings of the same coefficient inside a block that is a constraint side: {} vs {}", e(x), e(y)));
+                }
+            }
+        }
+        out.push(c);
+    }
+    out
+}
+
+/// Twin models that differ ONLY in how one closed constant is spelled, with the constant in every kind of
+/// position: coefficient / bound in the objective, in an arithmetic constraint, inside a block, as an operand of a
+/// logic connective (0/1 constants), under `not`, in a bare logic assertion.  `compile_respell_constant` says the
+/// two compile to the same result; the implementation is held to that bit for bit (rows, published domains,
+/// acceptance and error kind).
+fn respell_position_cases(r: &mut Rng, count: usize) -> Vec<Case> {
+    use rooc::{Comparison, OptimizationType, VariableType};
+    let num = |v: f64| Exp::Number(v);
+    let var = |n: &str| Exp::Variable(n.into());
+    let bx = |op: BinOp, l: Exp, rr: Exp| Exp::BinOp(op, Box::new(l), Box::new(rr));
+    let ds = vec![
+        gen_model::VarDecl { name: "x".into(), ty: VariableType::Real(-4.0, 6.0) },
+        gen_model::VarDecl { name: "y".into(), ty: VariableType::Real(f64::NEG_INFINITY, 8.0) },
+        gen_model::VarDecl { name: "a".into(), ty: VariableType::Boolean },
+        gen_model::VarDecl { name: "b".into(), ty: VariableType::Boolean },
+    ];
+    let spell = |k: f64, how: usize| -> Exp {
+        match how % 6 {
+            0 => bx(BinOp::Add, num(k - 1.0), num(1.0)),
+            1 => bx(BinOp::Div, num(2.0 * k), num(2.0)),
+            2 => bx(BinOp::Sub, num(k + 1.0), num(1.0)),
+            3 => bx(BinOp::Mul, num(k / 2.0), num(2.0)),
+            4 => Exp::UnOp(UnOp::Neg, Box::new(num(-k))),
+            _ => Exp::Max(vec![num(k), num(k - 3.0)]),
+        }
+    };
+    let mut out = vec![];
+    for i in 0..count {
+        let how = r.below(6) as usize;
+        let pos = i % 8;
+        // the context as a function of the constant
+        let k = if pos >= 5 { *r.pick(&[1.0, 0.0]) } else { *r.pick(&[2.0, 3.0, -2.0, 0.5, 4.0, -1.0]) };
+        let mk = |c: Exp| -> Model {
+            let le = |l: Exp, rr: Exp| Constraint::new(l, Comparison::LessOrEqual, rr, String::new());
+            let base = le(bx(BinOp::Add, var("x"), var("y")), num(9.0));
+            let (obj, cons): (Exp, Vec<Constraint>) = match pos {
+                // objective coefficient
+                0 => (bx(BinOp::Sub, bx(BinOp::Mul, c, var("x")), var("y")), vec![base.clone(), le(Exp::UnOp(UnOp::Neg, Box::new(var("y"))), num(3.0))]),
+                // objective offset inside a block
+                1 => (Exp::Max(vec![bx(BinOp::Add, var("x"), c), var("y")]), vec![base.clone(), le(Exp::UnOp(UnOp::Neg, Box::new(var("y"))), num(3.0))]),
+                // arithmetic constraint: coefficient and bound
+                2 => (var("x"), vec![le(bx(BinOp::Add, bx(BinOp::Mul, c.clone(), var("x")), var("y")), bx(BinOp::Mul, c, num(3.0))), base.clone()]),
+                // divisor
+                3 => (var("x"), vec![le(bx(BinOp::Div, bx(BinOp::Add, var("x"), var("y")), c), num(5.0)), base.clone()]),
+                // inside abs inside a product
+                4 => (var("y"), vec![le(bx(BinOp::Mul, num(2.0), Exp::Abs(Box::new(bx(BinOp::Sub, var("x"), c)))), num(7.0)), base.clone()]),
+                // operand of a logic connective that is a value in an arithmetic constraint
+                5 => (var("x"), vec![le(bx(BinOp::Add, Exp::And(vec![var("a"), c.clone()]), Exp::Or(vec![var("b"), c])), bx(BinOp::Add, var("x"), num(2.0))), base.clone()]),
+                // under `not`, in an implication
+                6 => (var("x"), vec![le(Exp::Implies(Box::new(var("a")), Box::new(Exp::Not(Box::new(bx(BinOp::Sub, num(1.0), c))))), Exp::Iff(Box::new(var("b")), Box::new(var("a")))), base.clone()]),
+                // bare logic assertion
+                _ => (var("x"), vec![Constraint::new_logic_assertion(Exp::Or(vec![var("a"), Exp::And(vec![var("b"), c])]), String::new()), base.clone()]),
+            };
+            gen_model::build(if i % 2 == 0 { OptimizationType::Max } else { OptimizationType::Min }, obj, cons, &ds)
+        };
+        let (m1, m2) = (mk(num(k)), mk(spell(k, how)));
+        let (a, bb) = (Linearizer::linearize(m1.clone()), Linearizer::linearize(m2.clone()));
+        let (b1, b2) = (crate::props::c01::bounds_sx(&m1), crate::props::c01::bounds_sx(&m2));
+        let mut c = Case::default();
+        c.show = format!("{}  ~~respelled constant~~>  {}", format!("{}", m1).replace('\n', " ; "), format!("{}", m2).replace('\n', " ; "));
+        c.tags = vec!["respell".into(), format!("respell-position-{}", ["objective-coefficient", "objective-block", "constraint-coefficient-and-bound", "divisor", "abs-in-product", "logic-operand", "under-not-implies", "logic-assertion"][pos])];
+        c.nontrivial = true;
+        let err = |e: &rooc::LinearizationError| crate::props::c01::lin_error(e);
+        if b1 != b2 {
+            c.imp = "(bounds-differ)".into();
+            c.sig = Some("respelling-changes-bounds".into());
+            c.impl_violation = Some(format!("two spellings of the same constant: inferred ranges / published domains differ: {} {}  vs  {} {}", b1.0, b1.1, b2.0, b2.1));
+        } else {
+            match (&a, &bb) {
+                (Ok(la), Ok(lb)) if sx::lin_model(la) == sx::lin_model(lb) => { c.imp = "(both-compile)".into(); c.tags.push("respell-identical-output".into()); }
+                (Ok(la), Ok(lb)) => {
+                    c.imp = "(both-compile)".into();
+                    c.sig = Some("respelling-changes-output".into());
+                    c.impl_violation = Some(format!("two spellings of the same constant compile to different linear models: {}  vs  {}", sx::lin_model(la), sx::lin_model(lb)));
+                }
+                (Err(x), Err(y)) if err(x) == err(y) => { c.imp = format!("(both-rejected {})", err(x)); c.tags.push("respell-both-rejected".into()); }
+                (x, y) => {
+                    c.imp = format!("(acceptance-differs {} {})", x.is_ok(), y.is_ok());
+                    c.sig = Some("respelling-changes-acceptance".into());
+                    let e = |z: &Result<rooc::LinearModel, rooc::LinearizationError>| z.as_ref().err().map(|e| err(e)).unwrap_or("(ok)".into());
+                    c.impl_violation = Some(format!("two spellings of the same constant: {} vs {}", e(x), e(y)));
                 }
             }
         }
@@ -454,5 +545,6 @@ pub fn generate(seed: u64, n: usize, thorough: bool, _corpus: Option<&str>) -> V
         if let Some(c) = respell_case(&mut r) { cases.push(c); }
     }
     cases.extend(respell_block_cases(&mut r, if thorough { 600 } else { 60 }));
+    cases.extend(respell_position_cases(&mut r, if thorough { 1600 } else { 160 }));
     cases
 }
